@@ -19,6 +19,51 @@ type eqGuard struct {
 	action string // how the true edge returns
 	actOK  bool
 	pos    ssa.Instruction
+	dims   int // number of leading ordinates the predicate compares (0 = unknown)
+}
+
+// predicateDims determines how many leading ordinates an equality predicate call compares.
+func predicateDims(c ssa.CallInstruction) int {
+	callee := c.Common().StaticCallee()
+	if callee == nil {
+		return 0
+	}
+	args := c.Common().Args
+	if callee.Name() == "Equal" && len(args) == 3 {
+		// (Coord).Equal(layout, other): the layout's stride
+		if k, ok := eng.ConstInt(args[1]); ok {
+			switch k {
+			case 1:
+				return 2
+			case 2, 3:
+				return 3
+			case 4:
+				return 4
+			}
+		}
+		return 0
+	}
+	// a predicate defined in the module: the ordinates a[k] == b[k] it compares
+	if callee.Blocks == nil || len(callee.Params) < 2 {
+		return 0
+	}
+	seen := map[int64]bool{}
+	for _, b := range callee.Blocks {
+		for _, in := range b.Instrs {
+			if bo, ok := in.(*ssa.BinOp); ok && bo.Op == token.EQL {
+				pa, ka, oka := elemOfParam(callee, bo.X)
+				pb, kb, okb := elemOfParam(callee, bo.Y)
+				if oka && okb && ka == kb && pa != pb {
+					seen[ka] = true
+				}
+			}
+		}
+	}
+	n := 0
+	for seen[int64(n)] {
+		n++
+	}
+	return n
 }
 
 func paramIndex(fn *ssa.Function, v ssa.Value) int {
@@ -48,7 +93,7 @@ func equalityGuards(fn *ssa.Function, dims int) []eqGuard {
 		if a < 0 || b < 0 || a == b {
 			continue
 		}
-		g := eqGuard{a: a, b: b, pos: c}
+		g := eqGuard{a: a, b: b, pos: c, dims: predicateDims(c)}
 		call := c.(*ssa.Call)
 		for _, rf := range eng.Referrers(call) {
 			if ifi, ok := rf.(*ssa.If); ok {
@@ -91,7 +136,7 @@ func equalityGuards(fn *ssa.Function, dims int) []eqGuard {
 		if full {
 			// the block of the last ordinate's test carries the guard's true edge
 			last := ks[int64(dims-1)]
-			g := eqGuard{a: p.a, b: p.b, pos: last}
+			g := eqGuard{a: p.a, b: p.b, pos: last, dims: dims}
 			for _, rf := range eng.Referrers(last.(ssa.Value)) {
 				if ifi, ok := rf.(*ssa.If); ok {
 					g.block = ifi.Block()
@@ -164,6 +209,10 @@ func c15(p *core.Program, r *core.Report) {
 				r.Bad(r1, key, p.Pos(fn.Pos()), fmt.Sprintf("no zero-length test of (%s); the function tests %v: a degenerate segment reaches the general formula and divides by zero (NaN)", names(w), have))
 				continue
 			}
+			if g.dims < sp.dims {
+				r.Bad(r1, key, p.Pos(g.pos.Pos()), fmt.Sprintf("the zero-length test of (%s) compares %d ordinates, the segment lives in %d dimensions: a segment parallel to a dropped axis is collapsed to a point", names(w), g.dims, sp.dims))
+				continue
+			}
 			// action on the true edge
 			okAct, why := true, "guard present"
 			if sp.ptFn != "" && g.block != nil {
@@ -208,5 +257,6 @@ func c15(p *core.Program, r *core.Report) {
 	}
 	strideRule(p, r, "stride-discipline", []strideTarget{{"xyz", "*", "xyz"}, {"xy", "DistanceFromPointToLine", "xy"}, {"xy", "PerpendicularDistanceFromPointToLine", "xy"}, {"xy", "DistanceFromPointToLineString", "xy"}, {"xy", "DistanceFromLineToLine", "xy"}})
 	footprintRule(p, r, "segment-coverage", [][2]string{{"xy", "DistanceFromPointToLineString"}})
+	clampedProjectionRule(p, r, "segment-distance-clamped", [][2]string{{"xy", "DistanceFromPointToLine"}, {"xyz", "DistancePointToLine"}, {"xy", "distanceFromSegmentSquared"}})
 	r.Assume("the distances themselves (accuracy, symmetry, zero on contact) are not decided")
 }
